@@ -28,6 +28,43 @@ mod filterer;
 mod socket;
 mod state;
 
+/// Verification hooks (guard: cargo feature `verif-hooks`): the CLI's argument normalisation, state,
+/// configuration and filterer constructors, so that a harness can drive the real action handler
+/// and the real filterer in-process.
+#[cfg(feature = "verif-hooks")]
+#[doc(hidden)]
+pub mod verif {
+	use std::{ffi::OsString, sync::Mutex};
+
+	use clap::Parser;
+	use miette::Result;
+
+	pub use crate::{
+		config::make_config,
+		dirs::{ignores, vcs_types},
+		emits::{emits_to_environment, events_to_simple_format},
+		filterer::WatchexecFilterer,
+		state::{new as new_state, State},
+	};
+	use crate::args::Args;
+
+	/// `get_args` without logging set-up and without reading the process arguments.
+	pub async fn args_from(argv: Vec<OsString>) -> Result<Args> {
+		let mut args = Args::parse_from(argv);
+		args.output.normalise()?;
+		args.command.normalise().await?;
+		args.filtering.normalise(&args.command).await?;
+		args.events
+			.normalise(&args.command, &args.filtering, args.only_emit_events)?;
+		Ok(args)
+	}
+
+	/// Called at the end of the CLI's own spawn hook (which it re-installs on every action) with the
+	/// `TokioCommandWrap` as `&mut dyn Any` (this crate does not name that type itself).
+	pub type ExtraSpawnHook = Box<dyn Fn(&mut dyn std::any::Any) + Send>;
+	pub static EXTRA_SPAWN_HOOK: Mutex<Option<ExtraSpawnHook>> = Mutex::new(None);
+}
+
 async fn run_watchexec(args: Args, state: state::State) -> Result<()> {
 	info!(version=%env!("CARGO_PKG_VERSION"), "constructing Watchexec from CLI");
 
